@@ -4,6 +4,7 @@ cd "$(dirname "$0")/.."
 git merge --no-edit "$1" >/dev/null 2>&1
 python3 tools/mkdriver.py >/dev/null
 python3-vt tools/mkmanifest.py
+for f in $(git diff --name-only --diff-filter=U | grep "^evidence/"); do git checkout --ours "$f"; git add "$f"; done
 git add -A lean/TLVerif.lean lean/Driver/Main.lean MANIFEST.json
 if git diff --name-only --diff-filter=U | grep -q .; then echo "UNRESOLVED:"; git diff --name-only --diff-filter=U; exit 1; fi
 git commit -qm "merge $1" --no-edit 2>/dev/null || true
